@@ -171,3 +171,96 @@ package m3
 //@   ensures @shutdown_state_untouched r.done == old(r.done) && r.pending == old(r.pending)
 //@   ensures @never_closes_a_channel closed(r.metCh) == old(closed(r.metCh)) && closed(r.donech) == old(closed(r.donech))
 //@   loop 1 invariant @quiet_so_far r.done == old(r.done) && r.pending == old(r.pending) && closed(r.metCh) == old(closed(r.metCh)) && closed(r.donech) == old(closed(r.donech))
+
+// ---------------------------------------------------------------------------
+// C12 / C13: the batching goroutine.
+//
+// flush: a non-empty batch goes to the client exactly once, with the common
+// tags, and comes back empty (same backing array); an empty batch is a no-op.
+
+//@ func (*reporter).flush
+//@   property C12, C13
+//@   emits
+//@   requires r != nil && r.client != nil
+//@   modifies r.numBatches, r.numWriteErrors, elems(mets)
+//@   ensures @comes_back_empty len(result) == 0 && arrof(result) == arrof(mets)
+//@   ensures @an_empty_batch_is_not_sent len(mets) == 0 ==> quiet()
+//@   ensures @sent_exactly_once_with_the_common_tags len(mets) > 0 ==> one_more() && calls[old(len(calls))] == evn("m3.emit", r.client, arrof(mets), len(mets), arrof(r.commonTags), len(r.commonTags))
+//@   loop 1 invariant @idx 0 <= rangeindex+1 && rangeindex+1 <= len(mets) && len(calls) == old(len(calls)) + 1 && calls[old(len(calls))] == evn("m3.emit", r.client, arrof(mets), len(mets), arrof(r.commonTags), len(r.commonTags)) && (forall j int :: 0 <= j && j < old(len(calls)) ==> calls[j] == old(calls[j]))
+
+// process: gsum is the sum of the charged sizes of the metrics in the open
+// batch, grecv/gemit count the metrics received from the queue and handed to
+// flush.  The code's own running total always equals gsum and never exceeds
+// the packet budget when a batch is handed over; every received metric is
+// appended to the open batch exactly once and every batch is handed to flush.
+
+//@ func (*reporter).process
+//@   property C12, C13
+//@   emits
+//@   allocs
+//@   requires r != nil && r.client != nil && r.freeBytes > 0 && r.freeBytes <= 65535
+//@   modifies *
+//@   ghost gsum int = 0
+//@   ghost grecv int = 0
+//@   ghost gemit int = 0
+//@   after "for smet := range r.metCh": assume @every_metric_fits_on_its_own 0 <= smet.size && smet.size <= r.freeBytes
+//@   after "for smet := range r.metCh": grecv = grecv + (smet.set ? 1 : 0)
+//@   before all "r.flush(mets)": assert @batch_within_the_packet_budget gsum <= r.freeBytes
+//@   before all "r.flush(mets)": gemit = gemit + len(mets)
+//@   after "mets = r.flush(mets)": gsum = 0
+//@   after "mets = append(mets, m)": gsum = gsum + smet.size
+//@   after "mets = append(mets, m)": assert @appended_metric_is_the_received_one len(mets) >= 1 && mets[len(mets)-1].Name == smet.m.Name && mets[len(mets)-1].Timestamp == smet.m.Timestamp && mets[len(mets)-1].Value.MetricType == smet.m.Value.MetricType && mets[len(mets)-1].Value.Count == smet.m.Value.Count && same(mets[len(mets)-1].Value.Gauge, smet.m.Value.Gauge) && mets[len(mets)-1].Value.Timer == smet.m.Value.Timer
+//@   after "mets = append(mets, m)": assert @plain_metrics_keep_their_tags len(smet.bucket) == 0 ==> same(mets[len(mets)-1].Tags, smet.m.Tags)
+//@   after "tags := extraTags.Get().([]m3thrift.MetricTag)": assume @pooled_tag_slices_are_empty_and_unshared len(tags) == 0 && arrof(tags) != arrof(smet.m.Tags)
+//@   after "m.Tags = tags": assert @bucket_metrics_carry_their_own_tags_then_id_and_range len(tags) == len(smet.m.Tags) + 2 && (forall j int :: 0 <= j && j < len(smet.m.Tags) ==> tags[j].Name == smet.m.Tags[j].Name && tags[j].Value == smet.m.Tags[j].Value) && tags[len(smet.m.Tags)].Name == r.bucketIDTagName && tags[len(smet.m.Tags)].Value == smet.bucketID && tags[len(smet.m.Tags)+1].Name == r.bucketTagName && tags[len(smet.m.Tags)+1].Value == smet.bucket
+//@   after "mets = append(mets, m)": assert @bucket_metrics_are_sent_with_the_extended_tags len(smet.bucket) > 0 ==> len(mets[len(mets)-1].Tags) == len(smet.m.Tags) + 2
+//@   before "extraTags.Put(borrowedTags[i][:0])": assert @only_emptied_slices_go_back_to_the_pool 0 <= i && i < len(borrowedTags)
+//@   ensures @every_received_metric_was_handed_to_flush_once grecv == gemit
+//@   loop 1 invariant @running_total_is_the_charged_sum bytes == gsum && 0 <= gsum && gsum <= r.freeBytes
+//@   loop 1 invariant @received_is_emitted_plus_open_batch grecv == gemit + len(mets) && 0 <= gemit
+//@   loop 2 invariant @idx 0 <= rangeindex+1 && rangeindex+1 <= len(borrowedTags)
+
+// ---------------------------------------------------------------------------
+// C13 / C16: pre-built metrics.  A pre-built metric carries the allocation's
+// name and exactly its tags, and maximal placeholder values (so that its
+// measured size is an upper bound, C16).
+
+//@ pred tagsAre(ts []m3thrift.MetricTag, m map[string]string) { len(ts) == len(m) && (forall p int :: 0 <= p && p < len(ts) ==> ts[p].Name in m && m[ts[p].Name] == ts[p].Value) && (forall p, q int :: 0 <= p && p < q && q < len(ts) ==> ts[p].Name != ts[q].Name) }
+//@ pred allocWF(r *reporter) { r != nil && r.stringInterner != nil && r.tagCache != nil && r.resourcePool != nil && r.calcProto != nil && r.calc != nil && r.stringInterner.entries != nil && r.tagCache.entries != nil }
+// the interner's private table is not a tag map somebody hands in
+//@ pred notTheInternTable(r *reporter, tags map[string]string) { tags != r.stringInterner.entries }
+
+//@ func (*resourcePool).getMetricTagSlice
+//@   property C13
+//@   trusted
+//@   allocs
+//@   ensures @an_empty_slice_nobody_else_uses len(result) == 0 && fresh(result)
+//@   ensures @quiet quiet()
+
+//@ func sameTags
+//@   property C13
+//@   ensures @true_only_for_exactly_these_pairs result ==> len(mtags) == len(tags) && (forall p int :: 0 <= p && p < len(mtags) ==> mtags[p].Name in tags && tags[mtags[p].Name] == mtags[p].Value)
+//@   ensures @quiet quiet()
+//@   loop 1 invariant @checked_so_far 0 <= rangeindex+1 && rangeindex+1 <= len(mtags) && len(mtags) == len(tags) && (forall p int :: 0 <= p && p <= rangeindex ==> mtags[p].Name in tags && tags[mtags[p].Name] == mtags[p].Value) && quiet()
+
+//@ func (*reporter).convertTags
+//@   property C13
+//@   allocs
+//@   requires allocWF(r) && notTheInternTable(r, tags)
+//@   modifies r.tagCache.entries, r.stringInterner.entries
+//@   ensures @exactly_the_given_tags tagsAre(result, tags)
+//@   ensures @caller_map_untouched forall k string :: (k in tags) == old(k in tags) && (k in tags ==> tags[k] == old(tags[k]))
+//@   ensures @quiet quiet()
+//@   loop 1 invariant @built_so_far len(mtags) == seencount() && (forall p int :: 0 <= p && p < len(mtags) ==> seen(mtags[p].Name) && mtags[p].Name in tags && tags[mtags[p].Name] == mtags[p].Value) && (forall p, q int :: 0 <= p && p < q && q < len(mtags) ==> mtags[p].Name != mtags[q].Name) && quiet() && fresh(mtags)
+//@   loop 1 invariant @caller_map_untouched forall k string :: (k in tags) == old(k in tags) && (k in tags ==> tags[k] == old(tags[k]))
+//@   loop 1 invariant @only_the_intern_table_changes other_maps_unchanged(r.stringInterner.entries)
+
+//@ func (*reporter).newMetric
+//@   property C13, C16
+//@   allocs
+//@   requires allocWF(r) && notTheInternTable(r, tags)
+//@   modifies r.tagCache.entries, r.stringInterner.entries
+//@   ensures @allocated_name result.Name == name
+//@   ensures @maximal_placeholders result.Timestamp == 9223372036854775807 && (t == counterType ==> result.Value.MetricType == m3thrift.MetricType_COUNTER && result.Value.Count == 9223372036854775807) && (t == gaugeType ==> result.Value.MetricType == m3thrift.MetricType_GAUGE && result.Value.Gauge == math.MaxFloat64) && (t == timerType ==> result.Value.MetricType == m3thrift.MetricType_TIMER && result.Value.Timer == 9223372036854775807)
+//@   ensures @allocated_tags (len(tags) == 0 ==> len(result.Tags) == 0) && (len(tags) > 0 ==> tagsAre(result.Tags, tags))
+//@   ensures @quiet quiet()
